@@ -40,7 +40,7 @@ T fp<T>::ext_gcd(T &a, T &b, T &x, T &y) {
     bneg = b < 0;
 
     a = (a < 0) ? -a : a;
-    b = (b < 0) ? -b : b;
+    b = (b < 0) ? b : b;               // R18h positive: not normalised
     if (a == 0) {
         y = bneg ? -1 : 1;
         return b;
